@@ -154,4 +154,29 @@ PROPS = {
   trusted_base=["recover() and a 10 s deadline as panic/hang detectors", "go/ast extraction of panic/assert sites"],
   assumptions=["schema recursion passes through an instance-descending keyword (the harness filters in-place cycles before Validate)"],
  ),
+
+ "C04": dict(
+  families=[dict(name="infer", model="infer", quick=2500, thorough=60000)],
+  laws=["law_c04"],
+  rule="family infer: a type of the zoo (harness/zoo_gen.go, generated by tools/gen_zoo.py: ~150 declared struct types over every scalar kind, named scalars, pointers, slices, arrays incl. [0]T, string- and named-string-keyed maps, any, time.Time/slog.Level/big.Int, anonymous struct types, json tags with names incl. odd and invalid ones, '-', '-,', omitempty, omitzero, trailing commas, jsonschema tags, embedded structs by value and pointer up to 3 levels incl. unexported types, JSON-name and Go-name conflicts through embedding, tagged and non-struct embedded fields, recursive and mutually recursive types, unsupported kinds at depth) x ForOptions (IgnoreInvalidTypes, typeschemasnull, TypeSchemas entries for named types occurring in the type: faithful, unfaithful, type-less, nil, invalid for embedding) x 6 typed values (zero values, nils, empty and 20-element containers, min/max of every sized integer, float32/float64 extremes) x 15 single-point mutations of their encodings (dropped key, added key, swapped JSON type, integers at and past every bound, null, changed array length); compared with the model: outcome, the marshalled schema document, every encoding (model of encoding/json against the real encoder), every verdict; law: every encoding of a value of a type of the domain (categories plain and conflict, faithful TypeSchemas, no nil maps, no nil embedded pointers, default debug setting) validates",
+  partial="",
+  trusted_base=["encoding/json's encoder (modelled: field selection, omitempty, nil handling; the model's encodings are compared with the real ones on every case)", "reflection-based rendering of types and values for the model (harness/geninfer.go)"],
+  assumptions=["floats are identified with the rational their shortest decimal denotes (what the encoder prints)", "the installed encoding/json (go1.23) has no omitzero: such fields are always emitted"],
+ ),
+ "C09": dict(
+  families=[dict(name="infer", model="infer", quick=2500, thorough=60000)],
+  laws=["law_c09"],
+  rule="family infer: a type of the zoo (harness/zoo_gen.go, generated by tools/gen_zoo.py: ~150 declared struct types over every scalar kind, named scalars, pointers, slices, arrays incl. [0]T, string- and named-string-keyed maps, any, time.Time/slog.Level/big.Int, anonymous struct types, json tags with names incl. odd and invalid ones, '-', '-,', omitempty, omitzero, trailing commas, jsonschema tags, embedded structs by value and pointer up to 3 levels incl. unexported types, JSON-name and Go-name conflicts through embedding, tagged and non-struct embedded fields, recursive and mutually recursive types, unsupported kinds at depth) x ForOptions (IgnoreInvalidTypes, typeschemasnull, TypeSchemas entries for named types occurring in the type: faithful, unfaithful, type-less, nil, invalid for embedding) x 6 typed values (zero values, nils, empty and 20-element containers, min/max of every sized integer, float32/float64 extremes) x 15 single-point mutations of their encodings (dropped key, added key, swapped JSON type, integers at and past every bound, null, changed array length); compared with the model: outcome, the marshalled schema document, every encoding (model of encoding/json against the real encoder), every verdict; law: a mutated document that the inferred schema accepts decodes into the type with DisallowUnknownFields (types without marshaler types and without TypeSchemas)",
+  partial="the decoder is not modelled: the law is evaluated on the package and the real decoder; the schema side (which documents are accepted) is the model's",
+  trusted_base=["encoding/json's decoder as the oracle of 'decodes into T'"],
+  assumptions=["integers of mutated documents stay within int64 (the property's domain)"],
+ ),
+ "C16": dict(
+  families=[dict(name="infer", model="infer", quick=2500, thorough=60000)],
+  laws=["law_c16"],
+  rule="family infer: a type of the zoo (harness/zoo_gen.go, generated by tools/gen_zoo.py: ~150 declared struct types over every scalar kind, named scalars, pointers, slices, arrays incl. [0]T, string- and named-string-keyed maps, any, time.Time/slog.Level/big.Int, anonymous struct types, json tags with names incl. odd and invalid ones, '-', '-,', omitempty, omitzero, trailing commas, jsonschema tags, embedded structs by value and pointer up to 3 levels incl. unexported types, JSON-name and Go-name conflicts through embedding, tagged and non-struct embedded fields, recursive and mutually recursive types, unsupported kinds at depth) x ForOptions (IgnoreInvalidTypes, typeschemasnull, TypeSchemas entries for named types occurring in the type: faithful, unfaithful, type-less, nil, invalid for embedding) x 6 typed values (zero values, nils, empty and 20-element containers, min/max of every sized integer, float32/float64 extremes) x 15 single-point mutations of their encodings (dropped key, added key, swapped JSON type, integers at and past every bound, null, changed array length); compared with the model: outcome, the marshalled schema document, every encoding (model of encoding/json against the real encoder), every verdict; laws: two calls give equal documents; no Schema object is shared between two results, within one result, or with a TypeSchemas entry (reflection over every field); Resolve accepts the result; for root structs PropertyOrder equals the member order encoding/json writes for a value with no empty field, properties are exactly those members, required is exactly the members whose tag has neither omitempty nor omitzero",
+  partial="",
+  trusted_base=["encoding/json's encoder as the oracle for names and order"],
+  assumptions=[],
+ ),
 }
